@@ -1515,6 +1515,12 @@ def run(ctx):
         m = dict(meta[i])
         m['model'] = ctx.model_output(header, 'model_scase E %d (%s)' % (FUEL, cases[i])) if i in bad[:3] else None
         ctx.disagreement('structs', m)
+        if str(m.get('impl', '')).startswith('reject') and m.get('hex'):
+            try:
+                if constructed_witness(ctx, m['class'], m['v'], bytes.fromhex(m['hex'])):
+                    ctx.count('finder.constructed-witness')
+            except Exception as e:      # the finder is best effort; the disagreement is reported in any case
+                ctx.log('constructed_witness raised %s: %s' % (type(e).__name__, str(e)[:200]))
     for i in (0, len(cases) // 3, 2 * len(cases) // 3):
         if cases:
             ctx.sample({'struct_case': meta[i], 'coq': cases[i][:300]})
@@ -1545,6 +1551,75 @@ def run(ctx):
 
 
 # ------------------------------------------------------------------ replay of a recorded violation
+def constructed_witness(ctx, cname, v, bs):
+    """Finder for a correspondence disagreement of the kind "the model (reader AND writer schema) accepts this encoding,
+    the real reader refuses it": look for an OBJECT whose own write() yields exactly these bytes, which makes it a concrete
+    failure of the round trip (encodable, not decodable).  Search: replace one fixed-width leaf of the encoding (Integer,
+    Long Integer, Enumeration, Interval, Date-Time) by a small benign value; when the real reader accepts the neighbour,
+    put the original value back through the object's public attributes and write it.  Runs only for disagreeing cases."""
+    import ttlvparse
+    cls = next((c for _, n, c, _ in all_struct_classes() if n == cname), None)
+    if cls is None:
+        return False
+    leaves = []
+
+    def walk(off, end):
+        while off + 8 <= end:
+            ty = bs[off + 3]
+            ln = int.from_bytes(bs[off + 4:off + 8], 'big')
+            if ty == 1:
+                walk(off + 8, off + 8 + ln)
+            elif ty in (2, 3, 5, 9, 10):
+                leaves.append((off, ty, ln))
+            off += 8 + ln + (-ln) % 8
+    try:
+        ttlvparse.parse(bs)
+        walk(0, len(bs))
+    except Exception:
+        return False
+    for off, ty, ln in leaves:
+        raw = bs[off + 8:off + 8 + ln]
+        orig = int.from_bytes(raw, 'big', signed=ty in (2, 3, 9))
+        for benign in (1, 0, 2):
+            if benign == orig:
+                continue
+            nb = bs[:off + 8] + int(benign).to_bytes(ln, 'big') + bs[off + 8 + ln:]
+            obj, rest = impl_read(cls, nb, v)
+            if obj is None or rest:
+                continue
+            names = [n for n in dir(obj) if not n.startswith('_')]
+            for n in names:
+                try:
+                    cur = getattr(obj, n)
+                except Exception:
+                    continue
+                if callable(cur) or isinstance(cur, bool):
+                    continue
+                curv = getattr(cur, 'value', cur)
+                curv = getattr(curv, 'value', curv)
+                if curv != benign:
+                    continue
+                for newv in ([orig] if not hasattr(cur, 'name') else []) + ([type(cur)(orig)] if hasattr(cur, 'name') and hasattr(type(cur), '__members__') and any(m.value == orig for m in type(cur)) else []):
+                    o2, _ = impl_read(cls, nb, v)
+                    try:
+                        setattr(o2, n, newv)
+                    except Exception:
+                        continue
+                    w = impl_write(o2, v)
+                    if w == bs:
+                        back, why = impl_read(cls, bs, v)
+                        if back is None:
+                            ctx.violation({'class': cname, 'check': 'write(x)-cannot-be-read'},
+                                          {'class': cname, 'kmip_version': v, 'input_hex': bs.hex(),
+                                           'detail': {'steps': ['x = %s decoded from the neighbour encoding (the same bytes with the item at offset %d set to %d)' % (cname, off, benign),
+                                                                'x.%s = %r' % (n, orig), 'write(x) under KMIP %s gives input_hex' % v,
+                                                                'a fresh %s refuses to read input_hex: %s' % (cname, why)],
+                                                      'neighbour_hex': nb.hex(), 'attribute': n, 'value': orig}},
+                                          '%s (KMIP %s): an object with %s = %r encodes, and its own encoding is refused by read() with %s' % (cname, v, n, orig, why))
+                            return True
+    return False
+
+
 def replay(ctx, payload):
     """bin/check C01 --replay <file>: feed the recorded bytes to the recorded class under the recorded version again."""
     inp = payload.get('input') or {}
@@ -1570,6 +1645,12 @@ def replay(ctx, payload):
         size_probes(ctx, oracle)
         hit = [x for x in ctx.violations if x['signature'].get('class') == cname]
         for x in hit:
+            print('replay: VIOLATION reproduced:', x['what'])
+        print('replay: %s' % ('the violation reproduces' if hit else 'the violation does not reproduce on this tree'))
+        return 1 if hit else 0
+    if (payload.get('signature') or {}).get('check') == 'write(x)-cannot-be-read':
+        hit = any(constructed_witness(ctx, cname, v, bytes.fromhex(h)) for h in hexes[:1])
+        for x in ctx.violations:
             print('replay: VIOLATION reproduced:', x['what'])
         print('replay: %s' % ('the violation reproduces' if hit else 'the violation does not reproduce on this tree'))
         return 1 if hit else 0
